@@ -694,7 +694,7 @@ pub fn templates(nm: &Names, ext: bool, pool_size: usize) -> Vec<F> {
         out.push(s.to_string());
     }
     if ext {
-        let body = ["a", "AX {x}", "EF {x}", "%p% & AX {x}", "~ {x} | %p%", "!{y}: AX {y}", "!{y}: AG EF {y}", "EX (!{y} in %e%: AX ({y} & a))"];
+        let body = ["a", "!{y}: AX {y}", "AX {x}", "%p% & AX {x}", "!{y}: AG EF {y}", "EF {x}", "~ {x} | %p%", "EX (!{y} in %e%: AX ({y} & a))", "EF (!{y}: AX {y})", "(!{y}: AX {y}) | EX {x}"];
         for q in qs {
             for (i, b) in body.iter().enumerate() {
                 if i >= pool_size + 2 {
